@@ -675,6 +675,10 @@ func runOddDealer(rt *rapid.T) {
 	th := rapid.IntRange(2, n-1).Draw(rt, "t")
 	nv := rapid.IntRange(1, 2).Draw(rt, "validators")
 	odd := rapid.IntRange(0, n-1).Draw(rt, "oddMember")
+	// what the odd member does: deal polynomials with one coefficient too many, or append to its round-2 broadcast
+	// a cast in the name of another member (with its own verification-key share)
+	oddKind := rapid.SampledFrom([]string{"deals_with_threshold_plus_one", "spoofs_round2_cast_of_another_member"}).Draw(rt, "oddKind")
+	victim := (odd + 1 + rapid.IntRange(0, n-2).Draw(rt, "victim")) % n
 	session := []byte(fmt.Sprintf("session-odd-%d", rapid.IntRange(0, 1<<20).Draw(rt, "session")))
 	var peers []peer.ID
 	peerMap := map[peer.ID]cluster.NodeIdx{}
@@ -702,11 +706,14 @@ func runOddDealer(rt *rapid.T) {
 	done := map[int]bool{}
 	for i := 0; i < n; i++ {
 		nodeT := th
-		if i == odd {
+		var tp fTransport = tps[i]
+		if i == odd && oddKind == "deals_with_threshold_plus_one" {
 			nodeT = th + 1
+		} else if i == odd {
+			tp = spoofingTP{tps[i], uint32(odd + 1), uint32(victim + 1)}
 		}
 		go func() {
-			sh, err := runFrostParallel(ctx, tps[i], uint32(nv), uint32(n), uint32(nodeT), uint32(i+1), string(session))
+			sh, err := runFrostParallel(ctx, tp, uint32(nv), uint32(n), uint32(nodeT), uint32(i+1), string(session))
 			mu.Lock()
 			res[i] = nodeResult{sh, err}
 			done[i] = true
@@ -745,7 +752,7 @@ func runOddDealer(rt *rapid.T) {
 		}
 	}
 	if !ok {
-		vstat.Case("", false, "odd_dealer:ceremony_did_not_finish(nothing_to_judge)")
+		vstat.Case("", false, "odd_dealer:ceremony_did_not_finish(nothing_to_judge)", "odd_kind_unfinished:"+oddKind)
 		return
 	}
 	msg := []byte("verif-c11-odd-dealer")
@@ -789,6 +796,38 @@ func runOddDealer(rt *rapid.T) {
 		if len(members) >= th {
 			rec(0, nil)
 		}
+		// every regular member's secret share belongs to the public share every regular member holds for it
+		for _, i := range members {
+			want, err := tbls.SecretToPublicKey(res[i].shares[v].SecretShare)
+			if err != nil {
+				rt.Fatalf("HARNESS-ERROR: %v", err)
+			}
+			for _, j := range members {
+				if got := res[j].shares[v].PublicShares[i+1]; got != want {
+					rt.Fatalf("SECRET/PUBLIC SHARE MISMATCH: validator %d: the ceremony finished successfully on every regular member (n=%d t=%d, member %d %s, victim %d), but the public share member %d holds for member %d does not belong to that member's secret share", v, n, th, odd, oddKind, victim, j, i)
+				}
+			}
+		}
 	}
-	vstat.Case(fmt.Sprintf("odd/%d/%d/%d/%d", n, th, nv, odd), true, "odd_dealer:others_finished")
+	vstat.Case(fmt.Sprintf("odd/%d/%d/%d/%d/%s", n, th, nv, odd, oddKind), true, "odd_dealer:others_finished", "odd_kind:"+oddKind)
+}
+
+// spoofingTP is the transport of a member that appends to its own round-2 broadcast one cast per validator in the
+// name of another member (carrying its own values).
+type spoofingTP struct {
+	fTransport
+	self, victim uint32
+}
+
+func (s spoofingTP) Round2(ctx context.Context, casts map[msgKey]frost.Round2Bcast) (map[msgKey]frost.Round2Bcast, error) {
+	out := map[msgKey]frost.Round2Bcast{}
+	for k, c := range casts {
+		out[k] = c
+		if k.SourceID == s.self {
+			k2 := k
+			k2.SourceID = s.victim
+			out[k2] = c
+		}
+	}
+	return s.fTransport.Round2(ctx, out)
 }
